@@ -471,7 +471,6 @@ pub fn scenarios() -> Vec<Scenario> {
         sc("future_polled_then_awaited", false, vec![cs(Lock), vec![PollLockFut, AwaitFut, Touch, Unlock]], t2),
         sc("try_lock_never_blocks", false, vec![vec![Lock, JoinAll, Touch, Unlock], vec![TryLock, TryLock]], t2),
         sc("try_lock_vs_lock", false, vec![cs(Lock), vec![TryLock, Touch, Unlock, TryLock, Touch, Unlock]], t2),
-        sc("3t_future_dropped_between_waiters", false, vec![vec![Lock, JoinAll, Unlock], vec![PollLockFut, DropFut], cs(Lock)], (None, None)),
         // ---- rwlock
         sc("1r1w", true, vec![cs(Write), cs(Read)], t2),
         sc("1r1w_twice", true, vec![cs2(Write), cs2(Read)], t2),
